@@ -105,5 +105,14 @@ EXTRA = [
     ("compound-enclosing-string", "(function () { var v = '5'; (function () { v += 1; })(); return v; })()", "51"),
     ("postfix-enclosing-result", "(function () { var v = '5'; var r = (function () { return v++; })(); return typeof r + r + '|' + v; })()", "number5|6"),
     ("postfix-enclosing-bool", "(function () { var v = true; var r = (function () { return v--; })(); return typeof r + r + '|' + v; })()", "number1|0"),
+    # a var of a nested function (expression, arrow, declaration) belongs to that function only
+    ("inner-var-vs-global", "var gq = 1; function f() { var h = function () { var gq = 2; return gq; }; return h() + '|' + gq; } f() + '|' + gq", "2|1|1"),
+    ("inner-var-vs-global-arrow", "var gq = 1; function f() { var h = () => { var gq = 2; return gq; }; return h() + '|' + gq; } f()", "2|1"),
+    ("inner-var-vs-global-decl", "var gq = 1; function f() { function h() { var gq = 2; return gq; } return h() + '|' + gq; } f()", "2|1"),
+    ("inner-var-vs-enclosing", "(function () { var v = 1; return (function () { var inner = function () { var v = 3; return v; }; return inner() + '|' + v; })(); })()", "3|1"),
+    ("inner-var-vs-enclosing-write", "(function () { var v = 1; var set = function () { v = 5; }; var inner = function () { var v = 3; v++; return v; }; set(); return inner() + '|' + v; })()", "4|5"),
+    ("inner-param-vs-global", "var gq = 1; function f() { var h = function (gq) { gq = 9; return gq; }; return h(2) + '|' + gq; } f()", "9|1"),
+    ("callback-var-vs-global", "var gq = 1; function f() { [1].forEach(function (x) { var gq = x + 1; }); return gq; } f()", 1),
+    ("inner-var-in-loop-body-fn", "var i = 'g'; function f() { var out = []; for (var k = 0; k < 2; k++) { out.push((function () { var i = k; return i; })()); } return out.join() + i; } f()", "0,1g"),
     ("delete-local-noop", "(function () { var v = 1; var r = delete v; return v; })()", 1),
 ]
